@@ -1,5 +1,566 @@
 import PyCliffordModel.Proofs.GroupLemmas
 /-! # Proofs/UniformLemmas — helper lemmas for the multiplicity theorem of the random-Clifford sampler and for `Σ_b get_prob = 1` -/
 namespace PC
+namespace Un
+open Rn
 
+/-! ## §1 counting over product tapes -/
+
+/-- the bit lists of width `a + b` are the concatenations of a width-`a` and a width-`b` list, in order -/
+theorem allBits_add (a b : Nat) : allBits (a + b) = (allBits a).flatMap fun x => (allBits b).map (x ++ ·) := by
+  induction a with
+  | zero => simp [allBits]
+  | succ a ih =>
+    have e : a + 1 + b = (a + b) + 1 := by omega
+    rw [e]
+    simp only [allBits, ih, List.flatMap_append, List.map_flatMap, List.flatMap_map, List.map_map]
+    rfl
+
+/-- number of accepted tapes of width `m` -/
+def cnt (m : Nat) (p : List Bool → Bool) : Nat := ((allBits m).filter p).length
+
+theorem cnt_congr (m : Nat) (p q : List Bool → Bool) (h : ∀ c, c.length = m → p c = q c) : cnt m p = cnt m q := by
+  unfold cnt
+  rw [List.filter_congr (fun c hc => h c ((St.mem_allBits m c).2 hc))]
+
+theorem filter_prod_length (M : List (List Bool)) (p p1 p2 : List Bool → Bool) :
+    ∀ L : List (List Bool), (∀ x ∈ L, ∀ y ∈ M, p (x ++ y) = (p1 x && p2 y)) →
+    ((L.flatMap fun x => M.map (x ++ ·)).filter p).length = (L.filter p1).length * (M.filter p2).length
+  | [], _ => by simp
+  | x :: L, h => by
+    have ih := filter_prod_length M p p1 p2 L (fun x' hx' => h x' (by simp [hx']))
+    rw [List.flatMap_cons, List.filter_append, List.length_append, ih, List.filter_map, List.length_map]
+    have hx : M.filter (p ∘ fun y => x ++ y) = M.filter (fun y => p1 x && p2 y) :=
+      List.filter_congr (fun y hy => h x (by simp) y hy)
+    rw [hx]
+    cases h1 : p1 x with
+    | false => simp [h1]
+    | true => simp [h1, Nat.succ_mul, Nat.add_comm]
+
+/-- a predicate on product tapes that factors has the product count -/
+theorem cnt_prod (a b : Nat) (p p1 p2 : List Bool → Bool)
+    (h : ∀ x y, x.length = a → y.length = b → p (x ++ y) = (p1 x && p2 y)) :
+    cnt (a + b) p = cnt a p1 * cnt b p2 := by
+  unfold cnt
+  rw [allBits_add]
+  exact filter_prod_length _ p p1 p2 _ (fun x hx y hy => h x y ((St.mem_allBits a x).2 hx) ((St.mem_allBits b y).2 hy))
+
+/-- exactly one tape of width `m` equals a given list of length `m` -/
+theorem cnt_eq (m : Nat) (c : List Bool) (hc : c.length = m) : cnt m (fun x => x == c) = 1 := by
+  unfold cnt
+  rw [← List.count_eq_length_filter]
+  rw [List.Nodup.count (St.nodup_allBits m), if_pos ((St.mem_allBits m c).1 hc)]
+
+/-! ## §2 the overlap chain on a pure state: totality and the two signs of one observable -/
+section Chain
+open Ms
+
+/-- the same string with the two signs: either both are ½-steps (to pure valid states), or exactly one of the two signs
+    is a stabilizer (factor 1, state unchanged) and the other gives trace zero -/
+theorem projTrace1_pair (st : State) (n : Nat) (g : PStr) (t : Dy) (h : TabInv st n) (hr : st.r = 0)
+    (hg : g.length = n) :
+    (∃ s0 s2, TabInv s0 n ∧ s0.r = 0 ∧ TabInv s2 n ∧ s2.r = 0 ∧
+        projTrace1 st ⟨g, 0⟩ t = .ok (s0, ⟨t.zero, t.k + 1⟩) ∧ projTrace1 st ⟨g, 2⟩ t = .ok (s2, ⟨t.zero, t.k + 1⟩)) ∨
+    (projTrace1 st ⟨g, 0⟩ t = .ok (st, t) ∧ projTrace1 st ⟨g, 2⟩ t = .ok (st, ⟨true, t.k⟩)) ∨
+    (projTrace1 st ⟨g, 0⟩ t = .ok (st, ⟨true, t.k⟩) ∧ projTrace1 st ⟨g, 2⟩ t = .ok (st, t)) := by
+  have hN := h.N_eq
+  rcases projTrace1_cases st ⟨g, 0⟩ t with ⟨p, hp1, hp2, _, he⟩ | ⟨hc, he⟩
+  · rcases projTrace1_cases st ⟨g, 2⟩ t with ⟨p', _, _, _, he'⟩ | ⟨hc', _⟩
+    · left
+      obtain ⟨a1, a2, _⟩ := C07_projTrace1_spec st _ n ⟨g, 0⟩ t _ h hr hg (by simp) (by simp) he
+      obtain ⟨b1, b2, _⟩ := C07_projTrace1_spec st _ n ⟨g, 2⟩ t _ h hr hg (by simp) (by simp) he'
+      exact ⟨_, _, a1, a2, b1, b2, he, he'⟩
+    · have := hc' p hp1
+      simp only at this hp2
+      rw [this] at hp2; cases hp2
+  · rcases projTrace1_cases st ⟨g, 2⟩ t with ⟨p', hp1', hp2', _, _⟩ | ⟨_, he'⟩
+    · have := hc p' hp1'
+      simp only at this hp2'
+      rw [this] at hp2'; cases hp2'
+    · right
+      simp only at hc he he'
+      rw [hN] at hc he he'
+      obtain ⟨d1, d2, d3, _⟩ := det_spec st n g h hg hc
+      rw [if_pos d1] at he he'
+      generalize (scanAcc st.rows g n 0 st.rows ⟨idStr n, 0⟩).p = q at d2 d3 he he'
+      have hq : q = 0 ∨ q = 2 := by omega
+      rcases hq with rfl | rfl
+      · left
+        rw [if_pos rfl] at he
+        rw [if_neg (by decide)] at he'
+        exact ⟨he, he'⟩
+      · right
+        rw [if_neg (by decide)] at he
+        rw [if_pos rfl] at he'
+        exact ⟨he, he'⟩
+
+/-- one step of the chain never raises on a pure valid state (signs `±1`) -/
+theorem projTrace1_total (st : State) (n : Nat) (O : Pauli) (t : Dy) (h : TabInv st n) (hr : st.r = 0)
+    (hl : O.g.length = n) (hp : O.p = 0 ∨ O.p = 2) :
+    ∃ s' t', projTrace1 st O t = .ok (s', t') ∧ TabInv s' n ∧ s'.r = 0 := by
+  obtain ⟨g, p⟩ := O
+  simp only at hl hp
+  rcases projTrace1_pair st n g t h hr hl with ⟨s0, s2, a1, a2, b1, b2, e0, e2⟩ | ⟨e0, e2⟩ | ⟨e0, e2⟩ <;>
+    rcases hp with rfl | rfl
+  · exact ⟨_, _, e0, a1, a2⟩
+  · exact ⟨_, _, e2, b1, b2⟩
+  · exact ⟨_, _, e0, h, hr⟩
+  · exact ⟨_, _, e2, h, hr⟩
+  · exact ⟨_, _, e0, h, hr⟩
+  · exact ⟨_, _, e2, h, hr⟩
+
+/-- the chain never raises on a pure valid state -/
+theorem projTrace_total (n : Nat) : ∀ (obs : List Pauli) (st : State) (t : Dy), TabInv st n → st.r = 0 →
+    (∀ O ∈ obs, O.g.length = n ∧ (O.p = 0 ∨ O.p = 2)) → ∃ s' t', projTrace st obs t = .ok (s', t')
+  | [], st, t, _, _, _ => ⟨st, t, rfl⟩
+  | o :: os, st, t, h, hr, ho => by
+    obtain ⟨s1, t1, e1, h1, r1⟩ := projTrace1_total st n o t h hr (ho o (by simp)).1 (ho o (by simp)).2
+    rw [Pl.projTrace_cons_ok _ _ _ _ _ _ e1]
+    exact projTrace_total n os s1 t1 h1 r1 (fun O hO => ho O (by simp [hO]))
+
+/-- the observables `± g_i` selected by the bits `c` (`true` = sign `−1`) -/
+def obsOf (gs : List PStr) (c : List Bool) : List Pauli :=
+  List.zipWith (fun g (b : Bool) => (⟨g, if b then 2 else 0⟩ : Pauli)) gs c
+
+theorem obsOf_spec (n : Nat) (gs : List PStr) (c : List Bool) (hg : ∀ g ∈ gs, g.length = n) :
+    ∀ O ∈ obsOf gs c, O.g.length = n ∧ (O.p = 0 ∨ O.p = 2) := by
+  intro O hO
+  unfold obsOf at hO
+  obtain ⟨i, hi, rfl⟩ := List.mem_iff_getElem.1 hO
+  simp only [List.getElem_zipWith]
+  refine ⟨hg _ (List.getElem_mem _), ?_⟩
+  split <;> simp
+
+/-- value of a dyadic probability (`dyVal` of `Properties/C16b`) -/
+def dv (t : Dy) : Rat := if t.zero then 0 else 1 / (2 : Rat) ^ t.k
+
+/-- value of the chain, `0` when it raises -/
+def chainVal (s : State) (obs : List Pauli) (t : Dy) : Rat :=
+  match projTrace s obs t with
+  | .ok (_, t') => dv t'
+  | .error _ => 0
+
+theorem dv_half (z : Bool) (k : Nat) : dv ⟨z, k + 1⟩ + dv ⟨z, k + 1⟩ = dv ⟨z, k⟩ := by
+  cases z
+  · simp only [dv, Bool.false_eq_true, if_false]; grind
+  · simp only [dv, if_true]; grind
+
+theorem dv_true (k : Nat) : dv ⟨true, k⟩ = 0 := by simp [dv]
+
+theorem chainVal_cons (s s1 : State) (o : Pauli) (os : List Pauli) (t t1 : Dy)
+    (h : projTrace1 s o t = .ok (s1, t1)) : chainVal s (o :: os) t = chainVal s1 os t1 := by
+  unfold chainVal; rw [Pl.projTrace_cons_ok _ _ _ _ _ _ h]
+
+/-- **summing the chain over all sign patterns of a list of strings gives back the starting value** -/
+theorem chain_sum (n : Nat) : ∀ (gs : List PStr) (s : State) (t : Dy), TabInv s n → s.r = 0 →
+    (∀ g ∈ gs, g.length = n) → ((allBits gs.length).map fun c => chainVal s (obsOf gs c) t).sum = dv t
+  | [], s, t, _, _, _ => by
+    simp only [allBits, obsOf, chainVal, projTrace, List.length_nil, List.zipWith_nil_left, List.map_cons, List.map_nil,
+      List.sum_cons, List.sum_nil]
+    grind
+  | g :: gs, s, t, h, hr, hg => by
+    have hgl := hg g (by simp)
+    have hg' : ∀ g' ∈ gs, g'.length = n := fun g' hg'' => hg g' (by simp [hg''])
+    have hsplit : ((allBits (g :: gs).length).map fun c => chainVal s (obsOf (g :: gs) c) t).sum =
+        ((allBits gs.length).map fun c => chainVal s (⟨g, 0⟩ :: obsOf gs c) t).sum +
+        ((allBits gs.length).map fun c => chainVal s (⟨g, 2⟩ :: obsOf gs c) t).sum := by
+      simp only [List.length_cons, allBits, List.map_append, List.sum_append, List.map_map]
+      rfl
+    rw [hsplit]
+    rcases projTrace1_pair s n g t h hr hgl with ⟨s0, s2, a1, a2, b1, b2, e0, e2⟩ | ⟨e0, e2⟩ | ⟨e0, e2⟩
+    · simp only [chainVal_cons _ _ _ _ _ _ e0, chainVal_cons _ _ _ _ _ _ e2]
+      rw [chain_sum n gs s0 _ a1 a2 hg', chain_sum n gs s2 _ b1 b2 hg']
+      exact dv_half _ _
+    · simp only [chainVal_cons _ _ _ _ _ _ e0, chainVal_cons _ _ _ _ _ _ e2]
+      rw [chain_sum n gs s _ h hr hg', chain_sum n gs s _ h hr hg', dv_true]
+      grind
+    · simp only [chainVal_cons _ _ _ _ _ _ e0, chainVal_cons _ _ _ _ _ _ e2]
+      rw [chain_sum n gs s _ h hr hg', chain_sum n gs s _ h hr hg', dv_true]
+      grind
+
+end Chain
+
+/-! ## §3 `get_prob` as a chain over `± Z_k` -/
+
+/-- the stabilizers of the readout state are `± Z_k` with the signs given by the bits -/
+theorem basis_active (n : Nat) (b : List Bool) (hb : b.length = n) :
+    State.active ⟨(zeroState n).rows.mapIdx fun i R =>
+        if i < n then (⟨R.g, if b.getD i false then 2 else 0⟩ : Pauli) else R, 0⟩ =
+      obsOf ((List.range n).map (unitZ n)) b := by
+  have hlen := St.length_zeroState_rows n
+  unfold State.active State.N obsOf
+  simp only [List.length_mapIdx, hlen, List.drop_zero]
+  have h2 : 2 * n / 2 = n := by omega
+  rw [h2]
+  apply List.ext_getElem
+  · simp [hlen, hb]; omega
+  · intro i h1 h2
+    have hi : i < n := by simp at h2; omega
+    have hr := St.rowAt_zeroState_lo n i hi
+    rw [St.rowAt_eq, List.getElem?_eq_getElem (by rw [hlen]; omega)] at hr
+    simp only [Option.getD_some] at hr
+    simp only [List.getElem_take, List.getElem_mapIdx, if_pos hi, hr, List.getElem_zipWith, List.getElem_map,
+      List.getElem_range]
+    have : b.getD i false = b[i]'(by omega) := by simp [List.getD_eq_getElem?_getD, hb, hi]
+    rw [this]
+
+theorem state_eta (st : State) (hr : st.r = 0) : (⟨st.rows, 0⟩ : State) = st := by
+  cases st; simp only at hr; subst hr; rfl
+
+/-- **`get_prob` on a pure state is the chain over `± Z_0, …, ± Z_{n-1}`** -/
+theorem getProb_eq (st : State) (n : Nat) (b : List Bool) (h : TabInv st n) (hr : st.r = 0) (hb : b.length = n) :
+    getProb st b =
+      match projTrace st (obsOf ((List.range n).map (unitZ n)) b) ⟨false, 0⟩ with
+      | .error e => .error e
+      | .ok (_, t) => .ok ⟨t.zero, t.k + 0⟩ := by
+  unfold getProb expectState
+  simp only [h.N_eq, hr, bne_self_eq_false, Bool.false_eq_true, if_false, basis_active n b hb, state_eta st hr]
+  cases projTrace st (obsOf ((List.range n).map (unitZ n)) b) ⟨false, 0⟩ <;> rfl
+
+/-! ## §4 `random_clifford`: tape length, the recursive step and its injectivity -/
+
+theorem cnt_prod3 (a b c : Nat) (p p1 p2 p3 : List Bool → Bool)
+    (h : ∀ x y z, x.length = a → y.length = b → z.length = c → p (x ++ (y ++ z)) = (p1 x && (p2 y && p3 z))) :
+    cnt (a + (b + c)) p = cnt a p1 * (cnt b p2 * cnt c p3) := by
+  rw [← cnt_prod b c (fun w => p2 (w.take b) && p3 (w.drop b)) p2 p3 (fun y z hy _ => by
+    simp only [List.take_left' hy, List.drop_left' hy])]
+  apply cnt_prod
+  intro x w hx hw
+  have e : w = w.take b ++ w.drop b := (List.take_append_drop b w).symm
+  rw [e, h x _ _ hx (by rw [List.length_take]; omega) (by rw [List.length_drop]; omega), ← e]
+
+theorem cnt_pos_exists (m : Nat) (p : List Bool → Bool) (h : cnt m p ≠ 0) : ∃ c, c.length = m ∧ p c = true := by
+  unfold cnt at h
+  obtain ⟨c, hc⟩ := List.exists_mem_of_length_pos (Nat.pos_of_ne_zero h)
+  rw [List.mem_filter] at hc
+  exact ⟨c, (St.mem_allBits m c).2 hc.1, hc.2⟩
+
+theorem cnt_ne_zero (m : Nat) (p : List Bool → Bool) (c : List Bool) (hc : c.length = m) (hp : p c = true) :
+    cnt m p ≠ 0 := by
+  unfold cnt
+  have : c ∈ (allBits m).filter p := List.mem_filter.2 ⟨(St.mem_allBits m c).1 hc, hp⟩
+  intro h0
+  rw [List.length_eq_zero_iff] at h0
+  rw [h0] at this
+  cases this
+
+theorem split3 (a b c : Nat) (t : List Bool) (h : t.length = a + (b + c)) :
+    ∃ x y z, x.length = a ∧ y.length = b ∧ z.length = c ∧ t = x ++ (y ++ z) := by
+  refine ⟨t.take a, (t.drop a).take b, (t.drop a).drop b, ?_, ?_, ?_, ?_⟩
+  · rw [List.length_take]; omega
+  · rw [List.length_take, List.length_drop]; omega
+  · rw [List.length_drop, List.length_drop]; omega
+  · rw [List.take_append_drop, List.take_append_drop]
+
+/-- a signless rotation is an involution on strings of its length -/
+theorem rot_rot (g h : PStr) (hl : g.length = h.length) : rotateSignless g (rotateSignless g h) = h := by
+  rcases acq_bit g h with h0 | h1
+  · rw [rotateSignless_comm g h h0, rotateSignless_comm g h h0]
+  · rw [rotateSignless_anti g h h1]
+    have : acq g (xorS h g) = 1 := by
+      rw [acq_xorS_right g h g hl.symm, h1, acq_self]; rfl
+    rw [rotateSignless_anti _ _ this, xorS_cancel_right h g hl.symm]
+
+/-- undoing a sequence of rotations: apply them in the reverse order -/
+theorem rotS_reverse_cancel : ∀ (gs : List PStr) (h : PStr), (∀ g ∈ gs, g.length = h.length) →
+    rotS gs.reverse (rotS gs h) = h
+  | [], _, _ => rfl
+  | g :: gs, h, hl => by
+    have hg := hl g (by simp)
+    have h1 := length_rotateSignless g h hg
+    rw [List.reverse_cons, rotS_append, rotS_cons, rotS_cons, rotS_nil,
+      rotS_reverse_cancel gs _ (fun g' hg' => by rw [h1]; exact hl g' (by simp [hg'])), rot_rot g h hg]
+
+theorem rotS_cancel_reverse (gs : List PStr) (h : PStr) (hl : ∀ g ∈ gs, g.length = h.length) :
+    rotS gs (rotS gs.reverse h) = h := by
+  have := rotS_reverse_cancel gs.reverse h (fun g hg => hl g (List.mem_reverse.1 hg))
+  rwa [List.reverse_reverse] at this
+
+/-- rotating all rows generator by generator = applying the whole sequence to each row -/
+theorem foldl_map_rot : ∀ (gs : List PStr) (rows : List PStr),
+    gs.foldl (fun rs g => rs.map (rotateSignless g)) rows = rows.map (rotS gs)
+  | [], rows => by
+    have : rotS [] = id := funext fun h => rfl
+    simp [this]
+  | g :: gs, rows => by
+    rw [List.foldl_cons, foldl_map_rot gs, List.map_map]
+    rfl
+
+theorem resample_len (n : Nat) : ∀ (fuel : Nat) (g : PStr) (tape : List Bool) (g' : PStr) (t' : List Bool),
+    resample n fuel g tape = some (g', t') →
+    (anyBit g = true ∧ g' = g ∧ t' = tape) ∨ (anyBit g = false ∧ t'.length + 2 * n ≤ tape.length)
+  | 0, g, tape, g', t', h => by
+    unfold resample at h
+    split at h
+    · rename_i ha
+      simp only [Option.some.injEq, Prod.mk.injEq] at h
+      exact Or.inl ⟨ha, h.1.symm, h.2.symm⟩
+    · cases h
+  | fuel + 1, g, tape, g', t', h => by
+    unfold resample at h
+    split at h
+    · rename_i ha
+      simp only [Option.some.injEq, Prod.mk.injEq] at h
+      exact Or.inl ⟨ha, h.1.symm, h.2.symm⟩
+    · rename_i ha
+      split at h
+      · cases h
+      · rename_i b tape' hb
+        obtain ⟨hbl, rfl⟩ := takeBits_some _ _ _ _ hb
+        right
+        refine ⟨by simpa using ha, ?_⟩
+        rcases resample_len n fuel _ _ _ _ h with ⟨_, _, rfl⟩ | ⟨_, hle⟩
+        · simp only [List.length_append]; omega
+        · simp only [List.length_append]; omega
+
+/-- first string non-identity: no resampling, the pair is read off the two halves -/
+theorem randomPair_split_ok (n : Nat) (b1 b2 u : List Bool) (h1 : b1.length = 2 * n) (h2 : b2.length = 2 * n)
+    (ha : anyBit (unflat b1) = true) :
+    randomPair n (b1 ++ (b2 ++ u)) = some ((unflat b1, fixP (unflat b1) (unflat b2)), u) := by
+  rw [randomPair_eq, takeBits_append (2 * n) b1 _ h1]
+  simp only [takeBits_append (2 * n) b2 u h2, resample_of_anyBit n _ _ u ha]
+
+/-- first string identity: resampling eats at least one more string from the rest of the tape -/
+theorem randomPair_split_bad (n : Nat) (b1 b2 u : List Bool) (h1 : b1.length = 2 * n) (h2 : b2.length = 2 * n)
+    (ha : anyBit (unflat b1) = false) (pr : PStr × PStr) (rest : List Bool)
+    (h : randomPair n (b1 ++ (b2 ++ u)) = some (pr, rest)) : rest.length + 2 * n ≤ u.length := by
+  rw [randomPair_eq, takeBits_append (2 * n) b1 _ h1] at h
+  simp only [takeBits_append (2 * n) b2 u h2] at h
+  split at h
+  · cases h
+  · rename_i g1 t3 hr
+    simp only [Option.some.injEq, Prod.mk.injEq] at h
+    obtain ⟨_, rfl⟩ := h
+    rcases resample_len n _ _ _ _ _ hr with ⟨ha', _, _⟩ | ⟨_, hle⟩
+    · rw [ha] at ha'; cases ha'
+    · exact hle
+
+theorem randomPair_len (n : Nat) (tape : List Bool) (pr : PStr × PStr) (rest : List Bool)
+    (h : randomPair n tape = some (pr, rest)) : rest.length + 4 * n ≤ tape.length := by
+  rw [randomPair_eq] at h
+  split at h
+  · cases h
+  · rename_i b1 t1 hb1
+    obtain ⟨l1, rfl⟩ := takeBits_some _ _ _ _ hb1
+    split at h
+    · cases h
+    · rename_i b2 t2 hb2
+      obtain ⟨l2, rfl⟩ := takeBits_some _ _ _ _ hb2
+      split at h
+      · cases h
+      · rename_i g1 t3 hr
+        simp only [Option.some.injEq, Prod.mk.injEq] at h
+        obtain ⟨_, rfl⟩ := h
+        simp only [List.length_append]
+        rcases resample_len n _ _ _ _ _ hr with ⟨_, _, rfl⟩ | ⟨_, hle⟩ <;> omega
+
+/-- number of tape bits `random_clifford(n)` consumes when no resampling happens (`tapeLen` of `Properties/C16b`) -/
+def tlen : Nat → Nat
+  | 0 => 0
+  | n + 1 => 4 * (n + 1) + tlen n
+
+/-- rows returned by one level of `random_clifford` on `n + 1` qubits (`n ≥ 1`) from the pair and the rows of the
+    recursive call -/
+def cliffStep (g1 g2 : PStr) (sub : List PStr) : List PStr :=
+  (diagonalize2 g1 g2 0).1.reverse.foldl (fun rs g => rs.map (rotateSignless g))
+    ((diagonalize2 g1 g2 0).2.1 :: (diagonalize2 g1 g2 0).2.2 :: sub.map fun r => (false, false) :: r)
+
+def stepRows (n : Nat) (g1 g2 : PStr) (sub : List PStr) : List PStr :=
+  if n = 0 then [g1, g2] else cliffStep g1 g2 sub
+
+theorem randomClifford_succ (n : Nat) (tape : List Bool) : randomClifford (n + 1) tape =
+    match randomPair (n + 1) tape with
+    | none => none
+    | some ((g1, g2), t) =>
+      match randomClifford n t with
+      | none => none
+      | some (sub, t') => some (stepRows n g1 g2 sub, t') := by
+  rw [randomClifford]
+  cases randomPair (n + 1) tape with
+  | none => rfl
+  | some p =>
+    obtain ⟨⟨g1, g2⟩, t⟩ := p
+    simp only
+    by_cases hn : n = 0
+    · subst hn
+      simp [randomClifford, stepRows]
+    · simp only [if_neg hn, stepRows, cliffStep]
+      cases randomClifford n t <;> rfl
+
+theorem randomClifford_len : ∀ (n : Nat) (tape : List Bool) (rows : List PStr) (rest : List Bool),
+    randomClifford n tape = some (rows, rest) → rest.length + tlen n ≤ tape.length
+  | 0, tape, rows, rest, h => by
+    simp only [randomClifford, Option.some.injEq, Prod.mk.injEq] at h
+    rw [← h.2]; simp [tlen]
+  | n + 1, tape, rows, rest, h => by
+    rw [randomClifford_succ] at h
+    split at h
+    · cases h
+    · rename_i g1 g2 t hp
+      split at h
+      · cases h
+      · rename_i sub t' hs
+        simp only [Option.some.injEq, Prod.mk.injEq] at h
+        obtain ⟨_, rfl⟩ := h
+        have a := randomPair_len _ _ _ _ hp
+        have b := randomClifford_len n _ _ _ hs
+        simp only [tlen]; omega
+
+/-- rows 0 and 1 of a level are the sampled pair itself; the other rows are the lifted sub-rows rotated back -/
+theorem cliffStep_eq (g1 g2 : PStr) (sub : List PStr) (hl : g1.length = g2.length) (hpos : 0 < g1.length)
+    (ha : acq g1 g2 = 1) :
+    cliffStep g1 g2 sub =
+      g1 :: g2 :: (sub.map fun r => (false, false) :: r).map (rotS (diagonalize2 g1 g2 0).1.reverse) := by
+  obtain ⟨_, _, _, _, d5, d6, d7⟩ := diag2_spec g1 g2 0 hl hpos ha
+  unfold cliffStep
+  rw [foldl_map_rot, List.map_cons, List.map_cons]
+  congr 1
+  · rw [d5]; exact rotS_reverse_cancel _ _ d7
+  · congr 1
+    rw [d6]; exact rotS_reverse_cancel _ _ (fun g hg => by rw [d7 g hg, hl])
+
+theorem map_rot_cancel (gs : List PStr) (L : List PStr) (hL : ∀ r ∈ L, ∀ g ∈ gs, g.length = r.length) :
+    (L.map (rotS gs.reverse)).map (rotS gs) = L := by
+  rw [List.map_map]
+  conv => rhs; rw [← List.map_id L]
+  apply List.map_congr_left
+  intro r hr
+  exact rotS_cancel_reverse gs r (hL r hr)
+
+theorem lift_injective (q : Q) (a b : List PStr) (h : (a.map fun r => q :: r) = b.map fun r => q :: r) : a = b := by
+  have := congrArg (List.map List.tail) h
+  simpa [List.map_map, Function.comp_def] using this
+
+/-- **one level of `random_clifford` is injective** in (pair, rows of the recursive call) -/
+theorem stepRows_inj (n : Nat) (g1 g2 h1 h2 : PStr) (sub sub' : List PStr)
+    (lg1 : g1.length = n + 1) (lg2 : g2.length = n + 1) (lh1 : h1.length = n + 1) (lh2 : h2.length = n + 1)
+    (ag : acq g1 g2 = 1) (ah : acq h1 h2 = 1)
+    (ls : sub.length = 2 * n) (ls' : sub'.length = 2 * n)
+    (rs : ∀ r ∈ sub, r.length = n) (rs' : ∀ r ∈ sub', r.length = n)
+    (he : stepRows n g1 g2 sub = stepRows n h1 h2 sub') : g1 = h1 ∧ g2 = h2 ∧ sub = sub' := by
+  unfold stepRows at he
+  by_cases hn : n = 0
+  · subst hn
+    simp only [if_true, List.cons.injEq, and_true] at he
+    refine ⟨he.1, he.2, ?_⟩
+    rw [List.eq_nil_of_length_eq_zero ls, List.eq_nil_of_length_eq_zero ls']
+  · rw [if_neg hn, if_neg hn, cliffStep_eq g1 g2 sub (lg1.trans lg2.symm) (by omega) ag,
+      cliffStep_eq h1 h2 sub' (lh1.trans lh2.symm) (by omega) ah] at he
+    simp only [List.cons.injEq] at he
+    obtain ⟨rfl, rfl, he⟩ := he
+    refine ⟨rfl, rfl, ?_⟩
+    obtain ⟨_, _, _, _, _, _, d7⟩ := diag2_spec g1 g2 0 (lg1.trans lg2.symm) (by omega) ag
+    have hc := congrArg (List.map (rotS (diagonalize2 g1 g2 0).1)) he
+    have hlift : ∀ (S : List PStr), (∀ r ∈ S, r.length = n) →
+        ∀ r ∈ (S.map fun r => ((false, false) : Q) :: r), ∀ g ∈ (diagonalize2 g1 g2 0).1, g.length = r.length := by
+      intro S hS r hr g hg
+      obtain ⟨r', hr', rfl⟩ := List.mem_map.1 hr
+      rw [d7 g hg, lg1, List.length_cons, hS r' hr']
+    rw [map_rot_cancel _ _ (hlift sub rs), map_rot_cancel _ _ (hlift sub' rs')] at hc
+    exact lift_injective _ _ _ hc
+
+/-- a tape of exactly `tlen (n+1)` bits with nothing left over: no resampling, and the result is one level on top of the
+    result of the remaining `tlen n` bits -/
+theorem step_char (n : Nat) (b1 b2 u : List Bool) (rows : List PStr) (h1 : b1.length = 2 * (n + 1))
+    (h2 : b2.length = 2 * (n + 1)) (hu : u.length = tlen n) :
+    randomClifford (n + 1) (b1 ++ (b2 ++ u)) = some (rows, []) ↔
+      anyBit (unflat b1) = true ∧ ∃ sub, randomClifford n u = some (sub, []) ∧
+        rows = stepRows n (unflat b1) (fixP (unflat b1) (unflat b2)) sub := by
+  rw [randomClifford_succ]
+  cases ha : anyBit (unflat b1) with
+  | true =>
+    rw [randomPair_split_ok (n + 1) b1 b2 u h1 h2 ha]
+    simp only [true_and]
+    cases hc : randomClifford n u with
+    | none => simp
+    | some p =>
+      obtain ⟨sub, t'⟩ := p
+      simp only [Option.some.injEq, Prod.mk.injEq]
+      constructor
+      · rintro ⟨rfl, rfl⟩; exact ⟨sub, ⟨rfl, rfl⟩, rfl⟩
+      · rintro ⟨sub', ⟨rfl, rfl⟩, rfl⟩; exact ⟨rfl, rfl⟩
+  | false =>
+    simp only [Bool.false_eq_true, false_and, iff_false]
+    intro h
+    split at h
+    · cases h
+    · rename_i g1 g2 t hp
+      split at h
+      · cases h
+      · rename_i sub t' hs
+        simp only [Option.some.injEq, Prod.mk.injEq] at h
+        obtain ⟨_, rfl⟩ := h
+        have a := randomPair_split_bad (n + 1) b1 b2 u h1 h2 ha _ _ hp
+        have b := randomClifford_len n _ _ _ hs
+        simp only [List.length_nil] at b
+        omega
+
+/-- exactly two second halves complete a non-identity `g1` to the pair `(g1, g2)` -/
+theorem cnt_fixP (n : Nat) (g1 g2 : PStr) (hg : g1.length = n) (hh : g2.length = n) (hne : anyBit g1 = true)
+    (ha : acq g1 g2 = 1) : cnt (2 * n) (fun y => fixP g1 (unflat y) == g2) = 2 := by
+  refine Eq.trans ?_ (randomPair_count n g1 g2 hg hh hne ha)
+  apply cnt_congr
+  intro y hy
+  rw [randomPair_flat n g1 y hg hne hy]
+  rw [Bool.eq_iff_iff]
+  simp
+
+/-- **multiplicity**: every output of `random_clifford(n)` on tapes of exactly `tlen n` bits (no bits left over) is
+    produced by exactly `2^n` of them -/
+theorem mult : ∀ (n : Nat) (rows : List PStr),
+    cnt (tlen n) (fun t => randomClifford n t == some (rows, [])) = 0 ∨
+    cnt (tlen n) (fun t => randomClifford n t == some (rows, [])) = 2 ^ n
+  | 0, rows => by
+    cases rows with
+    | nil => right; rfl
+    | cons r rs => left; rfl
+  | n + 1, rows => by
+    by_cases hz : cnt (tlen (n + 1)) (fun t => randomClifford (n + 1) t == some (rows, [])) = 0
+    · exact Or.inl hz
+    · right
+      have e : tlen (n + 1) = 2 * (n + 1) + (2 * (n + 1) + tlen n) := by simp only [tlen]; omega
+      rw [e] at hz ⊢
+      obtain ⟨t0, ht0, hp0⟩ := cnt_pos_exists _ _ hz
+      obtain ⟨b1, b2, u, l1, l2, l3, rfl⟩ := split3 _ _ _ t0 ht0
+      rw [beq_iff_eq, step_char n b1 b2 u rows l1 l2 l3] at hp0
+      obtain ⟨hne, sub0, hs0, hrows⟩ := hp0
+      obtain ⟨g1, hg1⟩ : ∃ g1, g1 = unflat b1 := ⟨_, rfl⟩
+      obtain ⟨g2, hg2⟩ : ∃ g2, g2 = fixP g1 (unflat b2) := ⟨_, rfl⟩
+      rw [← hg1] at hne hrows
+      rw [← hg2] at hrows
+      have lg1 : g1.length = n + 1 := by rw [hg1]; exact Cp.length_unflat b1 (n + 1) l1
+      have lx2 : (unflat b2).length = n + 1 := Cp.length_unflat b2 (n + 1) l2
+      have lg2 : g2.length = n + 1 := by rw [hg2, length_fixP, lx2]
+      have ag : acq g1 g2 = 1 := by rw [hg2]; exact acq_fixP g1 _ (lg1.trans lx2.symm) hne
+      obtain ⟨ls0, rs0, _⟩ := randomClifford_symS n u sub0 [] hs0
+      have key : ∀ x y z : List Bool, x.length = 2 * (n + 1) → y.length = 2 * (n + 1) → z.length = tlen n →
+          (randomClifford (n + 1) (x ++ (y ++ z)) == some (rows, [])) =
+            ((x == flat g1) && ((fixP g1 (unflat y) == g2) && (randomClifford n z == some (sub0, [])))) := by
+        intro x y z hx hy hz'
+        rw [Bool.eq_iff_iff]
+        simp only [beq_iff_eq, Bool.and_eq_true]
+        rw [step_char n x y z rows hx hy hz']
+        constructor
+        · rintro ⟨hax, sub, hs, hr⟩
+          have lx : (unflat x).length = n + 1 := Cp.length_unflat x (n + 1) hx
+          have ly : (unflat y).length = n + 1 := Cp.length_unflat y (n + 1) hy
+          obtain ⟨ls, rs, _⟩ := randomClifford_symS n z sub [] hs
+          obtain ⟨e1, e2, e3⟩ := stepRows_inj n g1 g2 (unflat x) (fixP (unflat x) (unflat y)) sub0 sub lg1 lg2 lx
+            (by rw [length_fixP, ly]) ag (acq_fixP _ _ (lx.trans ly.symm) hax) ls0 ls rs0 rs (hrows.symm.trans hr)
+          refine ⟨?_, ?_, ?_⟩
+          · rw [e1, Cp.flat_unflat x (n + 1) hx]
+          · rw [e1]; exact e2.symm
+          · rw [hs, e3]
+        · rintro ⟨rfl, hf, hq⟩
+          rw [unflat_flat]
+          exact ⟨hne, sub0, hq, by rw [hf]; exact hrows⟩
+      rw [cnt_prod3 _ _ _ _ _ _ _ key, cnt_eq _ _ (by rw [Cp.length_flat, lg1]),
+        cnt_fixP (n + 1) g1 g2 lg1 lg2 hne ag]
+      have hq : cnt (tlen n) (fun z => randomClifford n z == some (sub0, [])) ≠ 0 :=
+        cnt_ne_zero _ _ u l3 (by simp [hs0])
+      rcases mult n sub0 with h0 | h0
+      · exact absurd h0 hq
+      · rw [h0, Nat.pow_succ]; omega
+
+end Un
 end PC
